@@ -122,4 +122,14 @@ def dPathItemServer : Doc :=
     [("operations", op [] plainResponse),
      ("servers", .node .servers {} [("items", .node .server { strs := [("url", "https://{env}.example.com")] } [])])]]
 
+/-- an encoding object whose header key is not an identifier -/
+def dEncBadKey : Doc := encodingDoc { strs := [("key", "f")] }
+  [.node .headerRef { strs := [("key", "bad key!")], flags := ["resolved"] }
+    [("value", .node .header { flags := ["hasSchema"], nums := [("content", 0)] } [("schema", schemaRefTo strSchema)])]]
+
+/-- a string schema whose pattern is a look-ahead (not compilable by Go's engine) -/
+def dLookahead : Doc :=
+  root [pathItem "/p" [op [] (responseWithContent (mediaType
+    (.node .schema { lists := [("type", ["string"])], strs := [("pattern", "(?!a)")] } []) []))]]
+
 end KinModel.DocValidate.W
